@@ -165,6 +165,7 @@ def run(rep, tier):
     rep.rule('R03.4', 'both engines use all terms of the conflict definition: the fast engine\'s precomputed matrix (same source, source ancestry both ways, exit-set overlap both ways) and the large engine\'s lazily filled cache (source ancestry both ways, exit-set overlap both ways)')
     rep.rule('R03.8', 'the large engine\'s lazily filled conflict cache is used like the fast engine\'s matrix: per step the compatible set only narrows (intersection) and the conflicting set only grows (same rule as C01 R01.14)')
     rep.rule('R03.7', 'both engines compare the closed exit intervals with non-strict comparisons (overlap and membership tests)')
+    rep.rule('R03.10', 'every active state is asked for transitions in the large engine too: the selection loop skips entries of the post-fix view only relative to the state just handled (same rule as C01 R01.19)')
     rep.rule('R03.9', 'closures are complete in both engines: set-valued relations are used whole, ancestor passes do not re-seat their iterator at an insertion, deep completion adds the ancestors of every member (same rules as C02 R02.11 / R02.12); a closure that one engine cuts short is an engine difference')
     rep.rule('R03.6', 'the fast engine\'s children relation holds direct children only (as in the large engine and in the transpiler tables): the bit is not set while walking up the ancestors')
     rep.rule('R03.5', 'both engines compute the transition domain with the same (specified) quantifier shape: source only if internal, compound and all targets inside; else nearest compound ancestor containing all targets')
@@ -332,6 +333,9 @@ def run(rep, tier):
             rep.ok('R03.7', sk[e].eng, '%d endpoint comparisons, all non-strict' % len(cmps))
     # ---- R03.6 children relation of the fast engine
     fast_children(rep, fb, 'R03.6')
+    # ---- R03.10 every active state is asked for transitions (shared with C01 R01.19; the fast engine walks a bitset by index)
+    from .C01 import selection_cursor
+    selection_cursor(rep, fb, 'R03.10')
     # ---- R03.9 closures are complete in both engines (shared with C02 R02.11 / R02.12)
     from .C02 import closure_loops, first_only
     from . import _skel as _sk
